@@ -89,6 +89,33 @@ def _neighbour_desc(r, desc, mode):
     return d
 
 
+def _has_con(desc):
+    return bool(desc.get('con')) or any(_has_con(c) for c in U.children(desc))
+
+
+def _bad_input(r, w, task):
+    """Hex of an input for decode(…, asn1Spec=T) that is close to a value of T but is not one."""
+    from checks import c10
+    from simkit import corrupt
+    try:
+        v = w['values'][task['v']]
+        enc, dec, opts = U.codec(task['codec'])
+        n_leaves = c10._count_con(w['desc'], v)
+        if n_leaves and r.random() < 0.7:
+            info = []
+            nv = c10._violate(r, w['desc'], copy.deepcopy(v), [r.randrange(n_leaves)], info)
+            nd = c10._strip_con(w['desc'])
+            sch = U.build_schema(nd)
+            return enc.encode(U.build_value(sch, nd, nv), **opts).hex()
+        sch = U.build_schema(w['desc'])
+        e = enc.encode(U.build_value(sch, w['desc'], v), **opts)
+        ops = corrupt.gen_ops(r, e, corrupt.nodes_of(e), max_ops=1)
+        b = corrupt.apply(e, ops)
+        return b.hex() if len(b) < 4000 else None
+    except Exception:
+        return None
+
+
 def _gen_neighbours(r, w):
     """0-2 colliding neighbour types, each with its own values (generation side)."""
     out = []
@@ -119,7 +146,7 @@ def _gen_neighbours(r, w):
 
 def gen_plan(r, index, tier):
     w, cfg = common.gen_stream_workload(r, max_values=3, small=True, force_codec='ber', allow_f2=False, variants=False,
-                                        constructed_default=r.random() < 0.4)
+                                        constructed_default=r.random() < 0.4, constraints=r.random() < 0.4)
     desc = w['desc']
     nv = len(w['values'])
     codecs = _codecs_for(desc)
@@ -154,6 +181,14 @@ def gen_plan(r, index, tier):
         else:
             t['v'] = r.randrange(nv)
         tasks.append(t)
+    # calls that are REFUSED alone must be refused after any history too: some decode tasks get input that
+    # is not a value of T (one constrained leaf pushed outside its constraint, or stored-byte damage);
+    # the input is fixed in the plan as hex
+    for t in list(tasks):
+        if t['t'] == 'decode' and t.get('nb') is None and r.random() < (0.6 if _has_con(desc) else 0.25):
+            bad = _bad_input(r, w, t)
+            if bad is not None:
+                t['bad_hex'] = bad
     # resource-limit style state (depth counters, budgets) must be per call: now and then several deeply
     # nested schemaless elements are decoded side by side, each parked in the middle by its arrival plan
     if r.random() < 0.12:
@@ -207,10 +242,13 @@ def gen_plan(r, index, tier):
 # contexts and task bodies
 
 class Ctx(object):
-    def __init__(self, wdesc, values):
+    def __init__(self, wdesc, values, only=None):
         self.desc = wdesc
         self.schema = U.build_schema(wdesc)
-        self.values = [U.build_value(self.schema, wdesc, v) for v in values]
+        # an isolated reference context holds only what its one task needs: building the other values
+        # would already be "a history of other calls" on the schema (constraint objects see them)
+        self.values = [U.build_value(self.schema, wdesc, v) if (only is None or i in only) else None
+                       for i, v in enumerate(values)]
 
 
 def _workloads(plan):
@@ -229,7 +267,8 @@ def _ekey(task, v):
 
 def _fresh_ctx(plan, task):
     desc, values = _workloads(plan)[_slot(task)]
-    return Ctx(desc, values)
+    only = (task['v'],) if task['t'] in ('encode', 'print', 'native') else ()
+    return Ctx(desc, values, only=only)
 
 
 # The process as it was before any codec call ran in it (captured at import, below).  restore() is the
@@ -281,7 +320,7 @@ class OneShot(object):
             if t['t'] == 'encode':
                 return ['ok', enc.encode(self.ctx.values[t['v']], **opts).hex()]
             if t['t'] == 'decode':
-                data = self.encs.get(_ekey(t, t['v']))
+                data = t.get('bad_hex') or self.encs.get(_ekey(t, t['v']))
                 if data is None:
                     return ['skip', 'no-encoding']
                 v, rest = dec.decode(bytes.fromhex(data), asn1Spec=self.ctx.schema, **_dec_kw(self.plan, t))
@@ -456,7 +495,7 @@ def _encodings(plan):
     for slot, v, codec in sorted(need):
         try:
             _restart()
-            ctx = Ctx(*wls[slot])
+            ctx = Ctx(wls[slot][0], wls[slot][1], only=(v,))
             enc, dec, opts = U.codec(codec)
             out['%d|%d|%s' % (slot, v, codec)] = enc.encode(ctx.values[v], **opts).hex()
         except Exception:
@@ -627,7 +666,76 @@ def _preimport():
     import pyasn1.type.useful, pyasn1.type.char, pyasn1.type.opentype   # noqa: F401
 
 
+def systematic(tier):
+    """Every single pre-emption point of the first of two tasks: the thread-world counterpart of the
+    'every split point' sweeps of the stream-world."""
+    from simkit import rng
+    out = []
+    n = 3 if tier == 'quick' else 60
+    j = 0
+    while len(out) < n and j < 20 * n:
+        r = rng.rng_for('C12-switch-sweep', rng.verif_seed(), j)
+        j += 1
+        pl = gen_plan(r, j, tier)
+        tasks = [t for t in pl['tasks'] if t['t'] != 'deep' and t.get('abandon') is None][:2]
+        if len(tasks) < 2 or all(t['t'] == 'print' for t in tasks):
+            continue
+        for ti, t in enumerate(tasks):
+            for st in t.get('steps', []):
+                if st[0] in ('deliver', 'arm', 'close', 'poll') and len(st) > 1:
+                    st[1] = ti
+        pl['tasks'] = tasks
+        pl['neighbours'] = [nb for k, nb in enumerate(pl['neighbours']) if any(t.get('nb') == k for t in tasks)]
+        used = sorted(set(t['nb'] for t in tasks if t.get('nb') is not None))
+        for t in tasks:
+            if t.get('nb') is not None:
+                t['nb'] = used.index(t['nb'])
+        pl['schedule'] = {'mode': 'threads', 'switches': []}
+        pl['sweep_switch'] = True
+        pl['max_points'] = 150 if tier == 'quick' else 600
+        pl['isolation'] = 'inproc'
+        pl['timeout_s'] = 1800
+        pl.pop('index', None)
+        out.append(pl)
+    return out
+
+
+SYSTEMATIC_CHUNK = 1
+
+
+def _execute_switch_sweep(plan):
+    base = {k: v for k, v in plan.items() if k not in ('sweep_switch', 'max_points')}
+    first = execute(dict(base, schedule={'mode': 'threads', 'switches': []}))
+    if first['status'] != 'ok':
+        return first
+    total = first['counters'].get('thread.first_finisher_steps', 0)
+    if not total:
+        return common.skip_result('no-steps')
+    stride = max(1, -(-total // plan.get('max_points', 150)))
+    agg = first
+    n = 1
+    for k in range(1, total + 1, stride):
+        sub = dict(base, schedule={'mode': 'threads', 'switches': [[k, 0]]})
+        res = execute(sub)
+        n += 1
+        if res['status'] == 'violation':
+            res['detail'] = dict(res['detail'], switch_at=k, explicit_schedule=sub['schedule'])
+            res['evals'] = n
+            return res
+        if res['status'] == 'skip':
+            return res
+        common.merge_result(agg, res)
+    agg['evals'] = n
+    agg['weight'] = n
+    agg['counters']['probe.exhaustive_preemption_points'] = n - 1
+    agg['counters']['probe.preemption_stride'] = stride
+    agg['counters'].pop('thread.first_finisher_steps', None)
+    return agg
+
+
 def execute(plan):
+    if plan.get('sweep_switch'):
+        return _execute_switch_sweep(plan)
     from pyasn1 import debug
     _preimport()
     w = plan['workload']
@@ -766,6 +874,9 @@ def execute(plan):
                 results = sch.run([o.run_all for o in objs])
                 ctr['thread.switches'] = sch.switch_count
                 ctr['thread.line_steps'] = sch.step
+                fin = [e for e in trace if e and e[0] == 'finish']
+                if fin:
+                    ctr['thread.first_finisher_steps'] = fin[0][2]
                 if sch.switch_count:
                     overlapped[0] = True
                 for ti, res in enumerate(results):
@@ -816,6 +927,8 @@ def execute(plan):
         ctr['log.messages'] = sink.n
     for t in plan['tasks']:
         ctr['task.%s' % t['t']] = ctr.get('task.%s' % t['t'], 0) + 1
+        if t.get('bad_hex'):
+            ctr['task.decode.not-a-value-input'] = ctr.get('task.decode.not-a-value-input', 0) + 1
     crashes = sum(getattr(t, 'crashes', 0) for t in tasks_run)
     if crashes:
         ctr['fault.consumer_crash'] = crashes
@@ -917,7 +1030,13 @@ def _aliasing_probe(ctx, tasks_run, snap_schema, snap_values):
                 raise W.Violation('results-alias-each-other', result=ai, other=bi)
 
 
-def shrink_candidates(plan):
+def shrink_candidates(plan, detail=None):
+    if plan.get('sweep_switch'):
+        if detail and detail.get('explicit_schedule'):
+            c = {k: v for k, v in plan.items() if k not in ('sweep_switch', 'max_points')}
+            c['schedule'] = detail['explicit_schedule']
+            yield c
+        return
     tasks = plan['tasks']
     sched = plan['schedule']
     # drop a task (renumber the schedule)
